@@ -18,7 +18,10 @@ import Driver.WF
 import Driver.TGen
 import Driver.Validator
 import Driver.PestOpt
+import Driver.SkipHyp
+import Driver.L0
 import Driver.SpecTok
+import Driver.NF
 open PestTyped
 namespace Driver
 
@@ -59,10 +62,10 @@ def toKind : String → RuleKind
   | "nonatomic" => .nonAtomic
   | _ => .normal
 
-/-- C20: `<b><o>` ↦ box_only_if_needed = b, pest_optimizer = o. -/
+/-- C20: `<b><o>[<r>]` ↦ box_only_if_needed = b, pest_optimizer = o, emit_rule_reference = r (default off). -/
 def optsConfig (bits : String) : Config :=
   let cs := bits.toList
-  { box_only_if_needed := cs[0]? == some '1', pest_optimizer := cs[1]? != some '0' }
+  { box_only_if_needed := cs[0]? == some '1', pest_optimizer := cs[1]? != some '0', emit_rule_reference := cs[2]? == some '1' }
 
 structure GrammarEntry where
   gid : String
@@ -71,6 +74,8 @@ structure GrammarEntry where
   rawpg : Option PGrammar := none
   /-- C20: the module generated under each option combination (memoised: computed once per process). -/
   optNgs : List (String × Thunk NodeGrammar) := []
+  /-- C19: `(nf ..)` / `(ignored ..)` items of a raw grammar (Driver/NF.lean). -/
+  nf : NF.Items := {}
 
 def toFlag : String → Flag
   | "0" => .zero
@@ -135,7 +140,7 @@ def toGrammar : Sexp → Option GrammarEntry
       | .list [.atom "rule", .atom name, .atom atom, .atom emit, .atom boxed, body] =>
         some { name := name, atom := toAtom atom, emit := toEmit emit, boxed := boxed == "true", body := toNode body }
       | _ => none
-    some { gid := gid, ng := { rules := eoiDef :: rs, skipped := toNode sk } }
+    some { gid := gid, ng := { rules := eoiDef :: rs, skipped := toNode sk }, nf := NF.parseItems toNode rules }
   | _ => none
 
 /-- `(vgrammar (rule <name> <kind> <raw expr>) ...)`: the rules `harness/gen_runner` hands to pest_meta's
@@ -248,7 +253,9 @@ def runCase (uniTable : Uni) (ge : GrammarEntry) (rule entry form : String) (a b
       (match tryParsePartial g uniTable fuel r i with
       | .oof => "v=oof"
       | .fail m => "v=fail" ++ showM m ++ showReport g input m.trk
-      | .ok i' m v => "v=ok\tend=" ++ toString i'.pos ++ showM m ++ "\ttok=" ++ showTokens g (tokens g v)) ++ specOut
+      | .ok i' m v => "v=ok\tend=" ++ toString i'.pos ++ showM m ++ "\ttok=" ++ showTokens g (tokens g v) ++
+          -- raw grammars (T-raw): the value itself (`dbg=`) and its first counted repetition (`n=`, `items=`, `skips=`)
+          (if ge.pg.isNone then NF.valueObs g input v else "")) ++ specOut
     | "check_partial" =>
       match tryCheckPartial g uniTable fuel r i with
       | .oof => "v=oof"
@@ -268,7 +275,7 @@ def runCase (uniTable : Uni) (ge : GrammarEntry) (rule entry form : String) (a b
 
 /-! ### option combinations (C20): the module `genWith cfg optimized raw` instead of `gen optimized` -/
 
-/-- `opts <b><o> <gid> boxed` prints the `$boxed` argument of every rule;
+/-- `opts <b><o> <gid> boxed` prints the `$boxed` argument of every rule; `opts <b><o><r> <gid> accessors` the accessor names;
 `opts <b><o> <gid> <rule> <entry> <form> <a> <b> <hex>` runs a case on the module generated under
 `box_only_if_needed = b`, `pest_optimizer = o` (`spec=` then refers to the AST that was walked). -/
 def runOpts (uniTable : Uni) (gs : List GrammarEntry) (bits : String) (rest : List String) : String :=
@@ -280,12 +287,14 @@ def runOpts (uniTable : Uni) (gs : List GrammarEntry) (bits : String) (rest : Li
       match ge.pg, ge.rawpg with
       | some o, some r =>
         let cfg := optsConfig bits
-        let ng := match ge.optNgs.find? (·.1 = bits) with
+        let ng := match ge.optNgs.find? (·.1 = (bits.take 2).toString) with
           | some (_, t) => t.get
           | none => genWith cfg o r
         match tail with
         | ["boxed"] =>
           "boxed=" ++ ",".intercalate ((ng.rules.drop 1).map fun d => d.name ++ ":" ++ toString d.boxed)
+        | ["accessors"] =>     -- the accessor functions of every rule's `impl` block under the configuration (Model.GenOpts.emitWith)
+          "acc=" ++ ";".intercalate ((emitWith cfg o r).accessors.map fun (n, f) => n ++ ":" ++ ",".intercalate f.keys)
         | [rule, entry, form, a, b, hx] =>
           runCase uniTable { ge with ng := ng, pg := some (pickAst cfg o r) } rule entry form
             (a.toNat?.getD 0) (b.toNat?.getD 0) (unhex hx)
@@ -309,6 +318,8 @@ partial def loop (uniTable : Uni) (h : IO.FS.Stream) (gs : List GrammarEntry) : 
     IO.println (match gs.find? (·.gid = gid) with | some ge => PestOpt.run ge.rawpg rest | none => "v=nogrammar")
   | ["spectok", gid, rule, _, form, a, b, hx] =>        -- pest's token semantics `specTok` + `pruneAtomic` executed (C02): Driver/SpecTok.lean
     IO.println (match gs.find? (·.gid = gid) with | some ge => SpecTok.run ge.pg uniTable (fuelFor ge.ng (unhex hx)) rule (mkInp form (a.toNat?.getD 0) (b.toNat?.getD 0) (unhex hx)) | none => "v=nogrammar")
+  | "skiphyp" :: gid :: rest =>                         -- hypotheses on the skip rules (C01/C02/C07, F-WS): Driver/SkipHyp.lean
+    IO.println (match gs.find? (·.gid = gid) with | some ge => SkipHyp.run ge.pg ge.rawpg rest | none => "v=nogrammar")
   | "wf" :: gid :: rest =>                              -- static well-foundedness / theorem fuel (C11): Driver/WF.lean
     IO.println (match gs.find? (·.gid = gid) with | some ge => WF.command ge.ng rest | none => "v=nogrammar")
   | "wfraw" :: gid :: rest =>                           -- the same on the module of `#[pest_optimizer = false]` (raw AST, counted repetitions kept)
@@ -331,7 +342,11 @@ partial def loop (uniTable : Uni) (h : IO.FS.Stream) (gs : List GrammarEntry) : 
     | none => IO.println "v=nogrammar"
     | some ge =>
       let (an, bn, inp) := (a.toNat?.getD 0, b.toNat?.getD 0, unhex hx)
-      if Acc.isEntry entry then   -- accessor / traversal / eq-hash entries (C17, C15, C18): Driver/Acc.lean
+      if NF.handles ge.nf rule entry then   -- C19: counted repetitions as skip types (direct calls, `$ignored`): Driver/NF.lean
+        IO.println (NF.run ge.ng ge.nf uniTable (fun f x y => mkInp f x y inp) (fuelFor ge.ng inp)
+          (fun m => "\tstk=" ++ showStack m.stk ++ "\ttrk=" ++ showTracker ge.ng m.trk) (fun v => showTokens ge.ng (tokens ge.ng v))
+          (showReport ge.ng inp) rule entry form an bn inp)
+      else if Acc.isEntry entry then   -- accessor / traversal / eq-hash entries (C17, C15, C18): Driver/Acc.lean
         IO.println (Acc.runCase ge.ng ge.pg.isSome uniTable (fun f x y => mkInp f x y inp) (fuelFor ge.ng inp) rule entry form an bn inp)
       else
       IO.println (runCase uniTable ge rule entry form an bn inp)
